@@ -61,6 +61,7 @@ def _session(cfg):
     ad = loops.ADAPTERS[cfg["loop"]](env)
     fault = cfg.get("fault")
     counts = {k: 0 for k in CALLBACKS}
+    injected = [None]
 
     def hits(kind):
         """Will this invocation of callback `kind` raise the planned fault?"""
@@ -69,10 +70,12 @@ def _session(cfg):
     def maybe_raise(kind):
         counts[kind] += 1
         if fault and fault[0] == kind and fault[1] == counts[kind]:
-            env.log(t="raise", kind=fault[2])
+            env.log(t="raise", kind="exit" if fault[2] == "exit" else "error")
             if fault[2] == "exit":
                 raise urwid.ExitMainLoop()
-            raise loops.VfError("injected")
+            # "error": an Exception subclass; "base": a BaseException that is not an Exception
+            injected[0] = loops.VfBase("injected") if fault[2] == "base" else loops.VfError("injected")
+            raise injected[0]
 
     def keyname(k):
         return k if isinstance(k, str) else " ".join(str(x) for x in k)
@@ -201,7 +204,8 @@ def _session(cfg):
             outcome["outcome"] = "stuck"
         except BaseException as ex:  # noqa: BLE001
             outcome["outcome"] = "raise"
-            outcome["exc"] = type(ex).__name__
+            # "VfError" stands for: the injected exception object itself came out of run(), unchanged
+            outcome["exc"] = "VfError" if (ex is injected[0] or isinstance(ex, loops.VfError)) else type(ex).__name__
             outcome["msg"] = str(ex)[:100]
     except BaseException as ex:  # noqa: BLE001  # harness failure
         return {"error": f"{type(ex).__name__}: {ex}"}
@@ -283,7 +287,7 @@ def random_cfg(rng, loop):
     events = sorted((rng.choice([0, 5, 10, 10, 20, 30]), rng.choice(KINDS)) for _ in range(n))
     fault = None
     if rng.random() < 0.75:
-        fault = (rng.choice(CALLBACKS), rng.randint(1, 3), rng.choice(["exit", "error"]))
+        fault = (rng.choice(CALLBACKS), rng.randint(1, 3), rng.choice(["exit", "error", "error", "base"]))
     return {"loop": loop, "events": events, "fault": fault, "pop_ups": rng.random() < 0.3, "mouse": rng.random() < 0.8}
 
 
